@@ -90,7 +90,7 @@ def make_cvs(rng, shape, uniform, far=False):
 def point_kinds(rng, cvs):
     """One point per kind; returns list of (kind, point)."""
     out = []
-    for kind in ('node', 'midpoint', 'interior', 'interior', 'mixed', 'outside-low', 'outside-high'):
+    for kind in ('node', 'midpoint', 'interior', 'interior', 'mixed', 'outside-low', 'outside-high', 'next-to-node', 'next-to-node'):
         p = []
         for cv in cvs:
             k = kind
@@ -103,6 +103,12 @@ def point_kinds(rng, cvs):
                 p.append(float((cv[i] + cv[i + 1]) / 2))
             elif k == 'interior':
                 p.append(float(rng.uniform(cv[0], cv[-1])))
+            elif k == 'next-to-node':
+                # 1e-9 .. 1e-12 cell widths beside a node, not on it: the far neighbour still enters with its (tiny) weight
+                i = int(rng.integers(len(cv) - 1))
+                h_ = cv[i + 1] - cv[i]
+                delta = h_ * 10.0 ** rng.uniform(-12, -9)
+                p.append(float(cv[i] + delta) if rng.random() < 0.5 else float(cv[i + 1] - delta))
             elif k == 'outside-low':
                 p.append(float(cv[0] - rng.uniform(0.01, 0.49) * (cv[1] - cv[0])))
             else:
@@ -129,6 +135,9 @@ def run_interpolators(ctx):
                     f = rng.normal(size=shape).astype(dt)
                     if dt == 'complex128':
                         f = f + 1j * rng.normal(size=shape)
+                    if rep % 3 == 1 and dt != 'float32':
+                        # neighbouring values of very different magnitude (a small value next to a huge one)
+                        f = f * (10.0 ** rng.integers(-3, 7, size=shape)).astype(f.real.dtype)
                     comp = {'nearest': 'nearest_interpolator', 'linear': 'linear_interpolator', 'peraxis': 'per_axis_interpolator'}[kind]
                     mixed = len(set(schemes)) > 1
                     cfgb = '%dd;%s%s;%s;%s' % (nd, 'uniform' if uniform else 'nonuniform', ',far' if far else '', np.dtype(dt).kind + str(np.dtype(dt).itemsize),
